@@ -291,6 +291,10 @@ func runScenario(t *testing.T, sc scenario) (obs observed, fails []failure) {
 				f := inflight[i]
 				inflight = append(inflight[:i:i], inflight[i+1:]...)
 				mu.Unlock()
+				if m != nil && !o.OK {
+					// Manager.connectWithTransport calls Schedule itself when the dial of a persistent peer fails
+					doSchedule(f.a)
+				}
 				if f.epoch == epoch[f.a] {
 					if o.OK {
 						resetSeq(f.a)
